@@ -33,7 +33,8 @@ func newIgnore() *Ignore {
 
 func (i *Ignore) load(rootGoitPath string) error {
 	goitignorePath := filepath.Join(filepath.Dir(rootGoitPath), ".goitignore")
-	if _, err := os.Stat(goitignorePath); os.IsNotExist(err) {
+	if info, err := os.Stat(goitignorePath); os.IsNotExist(err) || (err == nil && info.IsDir()) {
+		// no ignore file (a directory of that name is not one)
 		return nil
 	}
 	f, err := os.Open(goitignorePath)
